@@ -247,6 +247,10 @@ fn fmt_cfg(cs: &ConfState) -> String {
     format!("{} {}", fmt_ids(cs.get_voters()), fmt_ids(cs.get_voters_outgoing()))
 }
 
+fn det_timeout(seed: u64, id: u64, term: u64, role: StateRole) -> usize {
+    6 + (mix(mix(mix(seed, id), term), role_p(role) + 17 * (role == StateRole::PreCandidate) as u64) % 6) as usize
+}
+
 fn pre_last_index(v: &View) -> u64 {
     v.first + v.entries.len() as u64 - 1
 }
@@ -317,7 +321,8 @@ impl Sim {
             let store = mk_store(&d, &d.applied.cs.clone());
             let rn = if member {
                 let mut r = RawNode::new(&cfg, store.clone(), &logger).unwrap();
-                r.raft.set_randomized_election_timeout(6 + rng.below(6) as usize);
+                let t = det_timeout(params.seed, id, r.raft.term, r.raft.state);
+                r.raft.set_randomized_election_timeout(t);
                 Some(r)
             } else {
                 None
@@ -722,16 +727,18 @@ impl Sim {
         if self.params.verbose {
             self.log(desc.clone());
         }
-        let pick = 6 + self.rng.below(6) as usize;
         let pre = self.view(i)?;
+        let seed = self.params.seed;
         let rn = self.nodes[i].rn.as_mut()?;
         let queued: Vec<Message> = rn.raft.msgs.clone();
         let before = rn.raft.randomized_election_timeout();
         match catch_unwind(AssertUnwindSafe(|| f(rn))) {
             Ok(r) => {
-                if rn.raft.randomized_election_timeout() != before {
-                    rn.raft.set_randomized_election_timeout(pick);
-                }
+                // the library draws the randomized election timeout from thread_rng; make it a function of
+                // (seed, node, term, role) so that a run replays exactly
+                let _ = before;
+                let t = det_timeout(seed, rn.raft.id, rn.raft.term, rn.raft.state);
+                rn.raft.set_randomized_election_timeout(t);
                 // with batch_append an already queued MsgAppend may have been extended by this call
                 let now = &self.nodes[i].rn.as_ref().unwrap().raft.msgs;
                 let modified: Vec<Message> = queued.iter().zip(now.iter()).filter(|(a, b)| a != b).map(|(_, b)| b.clone()).collect();
@@ -944,6 +951,9 @@ impl Sim {
             return;
         }
         let id = self.nodes[i].id;
+        // asynchronous apply: the application may report applied indexes late (advance_apply_to)
+        self.advance_apply(i);
+        let lag = self.rng.chance(30);
         let Some(mut rd) = self.call(i, "ready", None, |rn| rn.ready()) else { return };
         self.pev_now(format!("rdy {}", id));
         self.nodes[i].p_pending += 1;
@@ -1022,7 +1032,9 @@ impl Sim {
         if is_async {
             self.call(i, "advance_append_async", None, |rn| rn.advance_append_async(rd));
             self.apply_entries(i, ces);
-            self.advance_apply(i);
+            if !lag {
+                self.advance_apply(i);
+            }
             self.nodes[i].pending.push(Pending { number, msgs: pers, writes: w });
             self.stat("ready_async");
         } else {
@@ -1050,12 +1062,16 @@ impl Sim {
                 self.persist_event(i, 1);
             }
             self.apply_entries(i, ces);
-            self.advance_apply(i);
+            if !lag {
+                self.advance_apply(i);
+            }
             let lm = light.take_messages();
             self.send(i, lm);
             let lces = light.take_committed_entries();
             self.apply_entries(i, lces);
-            self.advance_apply(i);
+            if !lag {
+                self.advance_apply(i);
+            }
             self.stat("ready_sync");
         }
     }
@@ -1122,8 +1138,8 @@ impl Sim {
             }
         };
         let mut rn = rn;
-        let pick = 6 + self.rng.below(6) as usize;
-        rn.raft.set_randomized_election_timeout(pick);
+        let t = det_timeout(self.params.seed, id, rn.raft.term, rn.raft.state);
+        rn.raft.set_randomized_election_timeout(t);
         let n = &mut self.nodes[i];
         n.rn = Some(rn);
         n.store = store;
@@ -1188,6 +1204,14 @@ impl Sim {
         self.call(i, &d, Some(&mc), |rn| {
             let _ = rn.step(m);
         });
+        if self.rng.chance(2) {
+            // several ticks (up to an election timeout) before the application gets to the next Ready round
+            let k = 1 + self.rng.below(13);
+            for _ in 0..k {
+                if self.nodes[i].rn.is_none() { break; }
+                self.call(i, "tick", None, |rn| { rn.tick(); });
+            }
+        }
     }
 
     // -------------------------------------------------------------------------------------------
@@ -1498,7 +1522,15 @@ pub struct RunResult {
 
 pub fn run_one(params: Params, out: &mut dyn std::io::Write) -> RunResult {
     let mut sim = Sim::new(params.clone());
-    sim.run();
+    // a panic on the application side of the simulation (e.g. MemStorage refusing what a Ready handed
+    // out) must not abort the exploration: it ends this run and is reported with the history
+    let r = catch_unwind(AssertUnwindSafe(|| sim.run()));
+    if let Err(e) = r {
+        let msg = e.downcast_ref::<String>().cloned().or_else(|| e.downcast_ref::<&str>().map(|s| s.to_string())).unwrap_or_default();
+        let first = msg.lines().next().unwrap_or("").to_string();
+        sim.violate("C20", format!("the application side panicked while following the Ready contract: {}", first));
+        sim.p_end("panic");
+    }
     for l in &sim.ptrace {
         writeln!(out, "{}", l).unwrap();
     }
